@@ -1,4 +1,4 @@
-CONSTANTS Universe = "Flat"  NLocs = 1  Wrap = FALSE  MaxDepth = 6  RelateAll = FALSE
+CONSTANTS Universe = "Flat"  NLocs = 1  Wrap = FALSE  Wrap2 = FALSE  Family = "none"  MaxDepth = 6  RelateAll = FALSE
 CONSTANTS Types = {"PRIMARY"}
 CONSTANTS PathSeq <- MCPathSeq  LocSeq <- MCLocSeq  WrapsOf <- MCWrapsOf  MountFrom <- MCMountFrom  MountTo <- MCMountTo
 INIT Init
